@@ -63,6 +63,7 @@ func (k *zzKV) GetSize(ctx context.Context, key ds.Key) (int, error) {
 	return -1, ds.ErrNotFound
 }
 func (k *zzKV) Put(ctx context.Context, key ds.Key, value []byte) error {
+	zzsym.Yield() // I/O: another submitter or the consumer may run here
 	if !k.durable() {
 		return zzErrCrash
 	}
@@ -75,6 +76,7 @@ func (k *zzKV) Put(ctx context.Context, key ds.Key, value []byte) error {
 	return nil
 }
 func (k *zzKV) Delete(ctx context.Context, key ds.Key) error {
+	zzsym.Yield()
 	if !k.durable() {
 		return zzErrCrash
 	}
@@ -213,4 +215,102 @@ func ZZ_C10_history() {
 	if maxQ > 0 {
 		zzsym.Assert(len(s.queue.queue) <= maxQ, "queue-bound-respected")
 	}
+}
+
+// ZZ_C10_concurrent: concurrent use of one sequencer with queue bound 2 and
+// 0..1 batches already pending: two submitters with distinct batches, or one
+// submitter and one consumer, interleaved in every way at the granularity of
+// the datastore operations (each Put/Delete is a point where the other thread
+// may run; a thread needing a held lock waits).  Afterwards: every submission
+// was accepted or rejected as full, the bound holds, the database holds
+// exactly the pending accepted batches (a rejected one left no trace), and a
+// restart hands out exactly those.
+func ZZ_C10_concurrent() {
+	kv := &zzKV{crashAt: -1}
+	const maxQ = 2
+	s := zzNewSeq(kv, maxQ)
+	ctx := context.Background()
+	id := []byte("chain")
+	pre := zzsym.Pick("pending-before", 2)
+	batches := []coresequencer.Batch{{Transactions: [][]byte{{0x10}}}, {Transactions: [][]byte{{0x21}}}, {Transactions: [][]byte{{0x22}}}}
+	var pending []coresequencer.Batch
+	if pre == 1 {
+		_, err := s.SubmitBatchTxs(ctx, coresequencer.SubmitBatchTxsRequest{Id: id, Batch: &batches[0]})
+		zzsym.Assert(err == nil, "submission-accepted")
+		pending = append(pending, batches[0])
+	}
+	var errA, errB error
+	var got *coresequencer.GetNextBatchResponse
+	consumer := zzsym.Bool("consumer-instead-of-second-submitter")
+	zzsym.Go(func() {
+		_, errA = s.SubmitBatchTxs(ctx, coresequencer.SubmitBatchTxsRequest{Id: id, Batch: &batches[1]})
+	})
+	if consumer {
+		zzsym.Go(func() { got, errB = s.GetNextBatch(ctx, coresequencer.GetNextBatchRequest{Id: id}) })
+	} else {
+		zzsym.Go(func() {
+			_, errB = s.SubmitBatchTxs(ctx, coresequencer.SubmitBatchTxsRequest{Id: id, Batch: &batches[2]})
+		})
+	}
+	zzsym.Join()
+	zzsym.Reach("joined")
+	okA, okB := errA == nil, errB == nil
+	zzsym.Assert(okA || errors.Is(errA, ErrQueueFull), "submission-accepted-or-rejected-as-full")
+	if consumer {
+		zzsym.Assert(okB && got != nil && got.Batch != nil, "next-never-fails")
+		if !okB || got == nil || got.Batch == nil {
+			return
+		}
+		zzsym.Assert(okA, "submission-below-the-bound-accepted")
+		if okA {
+			pending = append(pending, batches[1])
+		}
+		// the consumer got the head of the queue at its linearisation point, or nothing
+		if len(got.Batch.Transactions) > 0 {
+			zzsym.Assert(len(pending) > 0 && zzBatchEq(got.Batch, pending[0]), "batches-handed-out-in-acceptance-order")
+			if len(pending) > 0 {
+				pending = pending[1:]
+			}
+		} else {
+			zzsym.Assert(pre == 0, "next-on-non-empty-queue-hands-out")
+		}
+	} else {
+		zzsym.Assert(okB || errors.Is(errB, ErrQueueFull), "submission-accepted-or-rejected-as-full")
+		free := maxQ - pre
+		n := 0
+		if okA {
+			n++
+			pending = append(pending, batches[1])
+		}
+		if okB {
+			n++
+			pending = append(pending, batches[2])
+		}
+		zzsym.Assert(n <= free, "queue-bound-respected")
+		zzsym.Assert(n == 2 || free < 2, "submission-below-the-bound-accepted")
+		zzsym.Assert(n >= 1, "submission-below-the-bound-accepted")
+	}
+	zzsym.Assert(len(s.queue.queue) == len(pending), "in-memory-queue-holds-exactly-the-pending-batches")
+	zzsym.Assert(len(kv.keys) == len(pending), "rejected-submission-leaves-no-trace")
+	// restart: exactly the pending batches are handed out (order between the two
+	// concurrent submissions is not determined; a single pending batch is)
+	s2 := zzNewSeq(kv, maxQ)
+	zzsym.Assert(len(s2.queue.queue) == len(pending), "pending-batches-survive-restart")
+	seen := 0
+	for i := 0; i < len(pending)+1; i++ {
+		res, err := s2.GetNextBatch(ctx, coresequencer.GetNextBatchRequest{Id: id})
+		zzsym.Assert(err == nil && res != nil && res.Batch != nil, "next-never-fails")
+		if err != nil || res == nil || res.Batch == nil || len(res.Batch.Transactions) == 0 {
+			break
+		}
+		found := false
+		for _, p := range pending {
+			if zzBatchEq(res.Batch, p) {
+				found = true
+			}
+		}
+		zzsym.Assert(found, "only-accepted-batches-are-handed-out-after-restart")
+		seen++
+	}
+	zzsym.Assert(seen == len(pending), "pending-batches-survive-restart")
 }
